@@ -363,11 +363,11 @@ func TestVerifC17(t *testing.T) {
 			t.Fatal(err)
 		}
 	}()
-	maxLen := 4
+	maxLen, ctxLen := 4, 3
 	if vres.Thorough() {
-		maxLen = 5
+		maxLen, ctxLen = 6, 4
 	}
 	c17Order(r, maxLen)
-	c17FailClosed(r, 3)
+	c17FailClosed(r, ctxLen)
 	c17Binary(t, r)
 }
